@@ -37,7 +37,8 @@ Record ust := {
   u_buf : list N;              (* m_buffer *)
   u_prio : N;                  (* m_active_priority *)
   u_inputs : list N;           (* m_input_ports, vector order *)
-  u_clients : list N;          (* m_source_clients: std::map keyed by pointer = ascending id *)
+  u_clients : list (N * bool); (* m_source_clients: std::map<Client*, bool> keyed by pointer =
+                                  ascending id; the bool is the "stale" mark of housekeeping *)
   u_outs : list N;             (* m_output_ports, vector order *)
   u_sinks : list N }.          (* m_sink_clients: std::set of pointers = ascending id *)
 
@@ -83,7 +84,7 @@ Definition acc0 := {| a_prio := SOURCE_PRIORITY_MIN; a_act := []; a_cia := false
 Definition port_sources (w : world) : list (sid * source) :=
   map (fun i => (Port i, p_src (w_ports w i))) (u_inputs (w_u w)).
 Definition client_sources (w : world) : list (sid * source) :=
-  map (fun c => (Client c, w_csrc w c)) (u_clients (w_u w)).
+  map (fun cb => (Client (fst cb), w_csrc w (fst cb))) (u_clients (w_u w)).
 Definition scan (now : N) (chg : sid) (w : world) : acc :=
   fold_left (scan_one now chg) (client_sources w) (fold_left (scan_one now chg) (port_sources w) acc0).
 
@@ -146,7 +147,11 @@ Inductive op :=
 | ClientChanged (c : N) (now : N)                  (* SourceClientDataChanged(client) alone *)
 | SetMode (ltp : bool)
 | AddInput (i : N) | RemoveInput (i : N)           (* AddPort/RemovePort + port->SetUniverse *)
-| AddSource (c : N) | RemoveSource (c : N)
+| AddSource (c : N) | RemoveSource (c : N)      (* AddSourceClient / RemoveSourceClient *)
+| CleanStale                                       (* Universe::CleanStaleSourceClients (housekeeping) *)
+| OutResult (i : N) (b : bool)                     (* what output port i's WriteDMX returns from now on *)
+| SinkResult (c : N) (b : bool)                    (* what client c's SendDMX returns from now on *)
+| SetDMX (data : list N)                           (* Universe::SetDMX(DmxBuffer(data)) *)
 | AddOutput (i : N) | RemoveOutput (i : N)
 | AddSink (c : N) | RemoveSink (c : N)
 | SetPortPrio (i p : N)                            (* BasicInputPort::SetPriority *)
@@ -166,6 +171,20 @@ Fixpoint ord_add (c : N) (l : list N) : list N :=
   | x :: r => if c <? x then c :: l else if c =? x then l else x :: ord_add c r
   end.
 Definition ord_remove (c : N) (l : list N) : list N := filter (fun x => negb (x =? c)) l.
+(* STLReplace(&m_source_clients, client, v): insert, or overwrite the value of an existing key *)
+Fixpoint map_put (c : N) (v : bool) (l : list (N * bool)) : list (N * bool) :=
+  match l with
+  | [] => [(c, v)]
+  | (x, b) :: r => if c <? x then (c, v) :: l else if c =? x then (x, v) :: r else (x, b) :: map_put c v r
+  end.
+Definition map_remove (c : N) (l : list (N * bool)) : list (N * bool) :=
+  filter (fun e => negb (fst e =? c)) l.
+(* the loop of CleanStaleSourceClients: an entry whose mark is set is erased, otherwise it is marked *)
+Fixpoint clean_stale (l : list (N * bool)) : list (N * bool) :=
+  match l with
+  | [] => []
+  | (c, b) :: r => if b then clean_stale r else (c, true) :: clean_stale r
+  end.
 
 Definition upd {A} (f : N -> A) (i : N) (v : A) : N -> A := fun j => if j =? i then v else f j.
 
@@ -201,22 +220,24 @@ Definition apply_update (w : world) (o : op) : option (sid * N * world) :=
   | ClientData c data prio ts now =>
     let s := {| s_data := dmx_set data; s_ts := ts; s_prio := prio |} in
     Some (Client c, now,
-          {| w_u := set_clients (w_u w) (ord_add c (u_clients (w_u w)));
+          {| w_u := set_clients (w_u w) (map_put c false (u_clients (w_u w)));
              w_ports := w_ports w; w_csrc := upd (w_csrc w) c s |})
   | ClientChanged c now =>
-    Some (Client c, now, with_u w (set_clients (w_u w) (ord_add c (u_clients (w_u w)))))
+    Some (Client c, now, with_u w (set_clients (w_u w) (map_put c false (u_clients (w_u w)))))
   | _ => None
   end.
 
-(* every other call: no merge, no fan-out *)
+(* every other call: no merge, no fan-out.  OutResult/SinkResult change nothing: the universe ignores
+   what WriteDMX/SendDMX return (UpdateDependants calls every dependant unconditionally). *)
 Definition admin_step (w : world) (o : op) : world :=
   let u := w_u w in
   match o with
   | SetMode b => with_u w (set_ltp u b)
   | AddInput i => with_u w (set_inputs u (vec_add i (u_inputs u)))
   | RemoveInput i => with_u w (set_inputs u (vec_remove i (u_inputs u)))
-  | AddSource c => with_u w (set_clients u (ord_add c (u_clients u)))
-  | RemoveSource c => with_u w (set_clients u (ord_remove c (u_clients u)))
+  | AddSource c => with_u w (set_clients u (map_put c false (u_clients u)))
+  | RemoveSource c => with_u w (set_clients u (map_remove c (u_clients u)))
+  | CleanStale => with_u w (set_clients u (clean_stale (u_clients u)))
   | AddOutput i => with_u w (set_outs u (vec_add i (u_outs u)))
   | RemoveOutput i => with_u w (set_outs u (vec_remove i (u_outs u)))
   | AddSink c => with_u w (set_sinks u (ord_add c (u_sinks u)))
@@ -241,10 +262,20 @@ Definition admin_step (w : world) (o : op) : world :=
   | _ => w
   end.
 
+(* Universe::SetDMX: "if (!buffer.Size()) return true; m_buffer.Set(buffer); return UpdateDependants();"
+   (no merge: the active priority is whatever the last MergeAll left) *)
+Definition set_dmx (w : world) (data : list N) : world * list event :=
+  let b := dmx_set data in
+  if len b =? 0 then (w, []) else
+  let u2 := set_merge (w_u w) (u_prio (w_u w)) b in (with_u w u2, fanout u2).
+
 Definition step (w : world) (o : op) : world * list event :=
   match apply_update w o with
   | Some (chg, now, w1) => data_changed chg now w1
-  | None => (admin_step w o, [])
+  | None => match o with
+            | SetDMX data => set_dmx w data
+            | _ => (admin_step w o, [])
+            end
   end.
 
 Definition run (ops : list op) : world := fold_left (fun w o => fst (step w o)) ops init_world.
